@@ -21,12 +21,15 @@
                                returns cycles over valid spanner edge ids, the run returns ApproxOk (the plain
                                Dijkstra never updates a vertex that left the queue and stays within its fuel,
                                the predecessor walk reaches the source, every translated id is in range).
-   NOT proved here (kept as a Definition, not asserted): C05_signed_stmt — the signed entry point without the
-   search premise and with termination of the exact phase; covered by the correspondence run (no MODEL-ERROR,
-   exact agreement) and the judges. *)
+     C05_signed                PREMISE-FREE, for approx_mcb_sva_signed: for every simple graph with positive
+                               weights, every k >= 1, every scan order (sorted or not) and every oracle of the
+                               spanner, the model returns ApproxOk with a cycle basis of the caller's graph
+                               (m - n + c duplicate-free lists of caller's edge ids, simple cycles) and
+                               returned value = their total weight.  The exact phase on the spanner (a simple
+                               graph with positive weights) is discharged by BidirProofs5.C01_signed / C02_signed. *)
 From Coq Require Import List Arith Bool ZArith Permutation Sorted Lia.
 From Parmcb Require Import GraphModel GF2Model GraphSpec McbSpec ForestModel SpannerModel SvaModel SvaSpec SvaProofs
-  SignedModel SignedZModel RefModel RefProofs3 ApproxModel ApproxProofsRun ApproxProofsSigned ApproxProofsEdge.
+  SignedModel SignedZModel RefModel RefProofs3 ApproxModel ApproxProofsRun ApproxProofsSigned ApproxProofsEdge ApproxProofsSignedFull.
 Import ListNotations.
 
 Theorem C05_basis_modulo_exact :
@@ -77,17 +80,21 @@ Theorem C05_no_error_modulo_exact :
 Proof. exact ap_run_total. Qed.
 Print Assumptions C05_no_error_modulo_exact.
 
-(* the full statement for the signed entry point: no premise on the search, and the run does return *)
+(* the full statement for the signed entry point: no premise on the search, and the run does return
+   (no sortedness of the scan order is needed for C05) *)
 Definition C05_signed_stmt : Prop :=
   forall g w k scan roots eord,
     simple_graph g -> positive_weights g w -> 1 <= k -> Permutation scan (seq 0 (ne g)) ->
-    Sorted (fun a b => (wt w a <= wt w b)%Z) scan ->
     (forall v, v < nv g -> In v roots) ->
     exists cycles total,
       approx_sva_signed_Z g w k scan roots eord = ApproxOk cycles total
       /\ cycle_basis g (map set_of_list cycles) /\ has_cycle_space_dimension g (length cycles)
       /\ Forall (fun c => NoDup c /\ forall e, In e c -> e < ne g) cycles
       /\ total = total_weight w cycles.
+
+Theorem C05_signed : C05_signed_stmt.
+Proof. exact ap_signed_full. Qed.
+Print Assumptions C05_signed.
 
 (* non-vacuity: the graph of C15_nonvacuous (K4 on 0..3, a pendant edge 3-4, a 5-cycle 4-5-6-7-8), weights with
    ties, a weight-sorted scan order that is not the stable one, k = 2: the spanner keeps the 5-cycle (girth 5 > 4)
